@@ -318,9 +318,8 @@ pub fn buffered(spec: &crate::Spec) -> Report {
     lens.dedup();
     let faults = spec.usize("faults", 0) == 1 && which == "unix";
     if faults {
-        lens = vec![1, cap / 2, cap.saturating_sub(2), cap.saturating_sub(1), cap + 1];
-        lens.sort();
-        lens.dedup();
+        // every length that matters for a tiny buffer: 1..=capacity+1
+        lens = (1..=cap + 1).collect();
     }
     let mut alpha: Vec<BOp> = lens.iter().map(|l| BOp::Emit(*l)).collect();
     alpha.push(BOp::Flush);
@@ -329,7 +328,8 @@ pub fn buffered(spec: &crate::Spec) -> Report {
         alpha.push(BOp::Up);
     }
     for hist in sequences(&alpha, depth) {
-        if hist.is_empty() || (faults && !hist.contains(&BOp::Down)) {
+        // with faults: the server is away from the start (so that an early flush can fail)
+        if hist.is_empty() || (faults && hist[0] != BOp::Down) {
             continue;
         }
         rep.evaluations += 1;
